@@ -274,17 +274,23 @@ func (e *enumerator) add(rule int, strict bool, site, style, what string, mut fu
 
 // ---------------------------------------------------------------- AST builders
 
-func T(n string) *idlast.Type          { return &idlast.Type{Name: idlast.B(n)} }
+func T(n string) *idlast.Type            { return &idlast.Type{Name: idlast.B(n)} }
 func ListOf(t *idlast.Type) *idlast.Type { return &idlast.Type{Name: "list", ValueType: t} }
 func SetOf(t *idlast.Type) *idlast.Type  { return &idlast.Type{Name: "set", ValueType: t} }
 func MapOf(k, v *idlast.Type) *idlast.Type {
 	return &idlast.Type{Name: "map", KeyType: k, ValueType: v}
 }
 
-func I(v int64) *idlast.ConstValue   { return &idlast.ConstValue{Kind: idlast.ConstInt, Int: v} }
-func S(s string) *idlast.ConstValue  { return &idlast.ConstValue{Kind: idlast.ConstLiteral, Literal: idlast.B(s)} }
-func Id(s string) *idlast.ConstValue { return &idlast.ConstValue{Kind: idlast.ConstIdentifier, Identifier: idlast.B(s)} }
-func D15() *idlast.ConstValue        { return &idlast.ConstValue{Kind: idlast.ConstDouble, DoubleBits: 0x3ff8000000000000} } // 1.5
+func I(v int64) *idlast.ConstValue { return &idlast.ConstValue{Kind: idlast.ConstInt, Int: v} }
+func S(s string) *idlast.ConstValue {
+	return &idlast.ConstValue{Kind: idlast.ConstLiteral, Literal: idlast.B(s)}
+}
+func Id(s string) *idlast.ConstValue {
+	return &idlast.ConstValue{Kind: idlast.ConstIdentifier, Identifier: idlast.B(s)}
+}
+func D15() *idlast.ConstValue {
+	return &idlast.ConstValue{Kind: idlast.ConstDouble, DoubleBits: 0x3ff8000000000000}
+} // 1.5
 func L(xs ...*idlast.ConstValue) *idlast.ConstValue {
 	return &idlast.ConstValue{Kind: idlast.ConstList, List: xs}
 }
@@ -376,7 +382,9 @@ func addEnum(f *idlast.File, name string, vals ...*idlast.EnumValue) {
 	}
 	f.Enums = append(f.Enums, &idlast.Enum{Name: idlast.B(name), Values: vals})
 }
-func EV(name string, v int64) *idlast.EnumValue { return &idlast.EnumValue{Name: idlast.B(name), Value: v} }
+func EV(name string, v int64) *idlast.EnumValue {
+	return &idlast.EnumValue{Name: idlast.B(name), Value: v}
+}
 
 // ---------------------------------------------------------------- enumeration
 
